@@ -14,9 +14,12 @@ def gshape(s):
     if k == "o":
         return "SOther"
     if k == "b":
-        return "(SBin None)" if s.get("e") else "(SBin (Some %s))" % gZ(s.get("n", 0))
-    if k == "m":
-        return "(SMapPh %s)" % gZ(s.get("n", 0))
+        st = gbool(not s.get("ns"))
+        return "(SBin %s None)" % st if s.get("e") else "(SBin %s (Some %s))" % (st, gZ(s.get("n", 0)))
+    if k == "p":
+        return "(SPhMap %s %s)" % (gZ(s.get("n", 0)), gshape(s["f"]))
+    if k == "M":
+        return "(SMap %s %s)" % (gbool(s.get("ci", False)), glist(gshape(x) for x in (s.get("l") or [])))
     return "(SSeq %s)" % glist(gshape(x) for x in (s.get("l") or []))
 
 
@@ -244,7 +247,9 @@ def run(ctx):
                 "with arbitrary frames, finished packets decoded against every family (model compared on every row); volume scan of every string "
                 "<=4 (quick) / <=6 (thorough) x 9 families in Go, suspicious rows (panic, pending, wrong frame count) judged in Coq; "
                 "seeded grammar-aware mutations of valid "
-                "packets; live: 27 malformed/valid classes sent by a raw peer to a real server next to a healthy connection; "
+                "packets; types: generated handler parameter types (maps/slices/structs/pointers nested to depth 3 over any, Binary, string, "
+                "int, map[string]any: all 105 of depth <=2, 60 seeded (quick) / all 320 (thorough) of depth 3) x JSON documents with a "
+                "placeholder-shaped object at every nesting level, in and out of range; live: 29 malformed/valid classes sent by a raw peer to a real server next to a healthy connection; "
                 "non-trivial = header accepted or packet pending (distinct (frames, maxAttachments, family)), each live class")
     ctx.trusted = ["Coq 8.16.1 kernel + vm_compute",
                    "hand-written models Sio/Header.v, Sio/Decoder.v tied by kernel-evaluated correspondence",
@@ -268,6 +273,8 @@ def run(ctx):
         ctx.note("suite %s: %.1fs" % (name, time.time() - t))
 
     timed("corpus", decoder_suite, ctx, vh, "corpus", ["-mode", "corpus"], 400)
+    timed("types", decoder_suite, ctx, vh, "types",
+          ["-mode", "types", "-depth", "3", "-seed", ctx.seed, "-n", 60 if ctx.quick else 0], 70)
     timed("live", live_suite, ctx, vh)
     timed("exhaustive", decoder_suite, ctx, vh, "exhaustive", ["-mode", "exhaustive", "-maxlen", "3" if ctx.quick else "4", "-workers", "16"], 600)
     timed("scan", decoder_suite, ctx, vh, "scan", ["-mode", "scan", "-maxlen", "4" if ctx.quick else "6", "-workers", "16"], 600)
